@@ -107,9 +107,10 @@ func (lp *Listpack) Next() []byte {
 		negmax = math.MaxUint64 // uint64_max
 		lp.p += lpEncodeBacklen(1 + 8)
 	} else {
-		uval = 12345678900000000 + uint64(fireByte)
-		negstart = math.MaxUint64
-		negmax = 0
+		// 0xF5..0xFE are not element encodings and 0xFF is the end marker: the
+		// cursor would not advance and a caller iterating by the listpack's own
+		// counters would never finish
+		panic(fmt.Errorf("list pack, invalid element encoding : %#x", fireByte))
 	}
 
 	/* We reach this code path only for integer encodings.
